@@ -1,0 +1,9 @@
+//go:build !verif
+
+package frugal
+
+// Without the verif build tag the yield points compile to nothing.
+
+func verifYield(string, uint64) {}
+
+func verifYieldCtx(string, FContext) {}
